@@ -13,6 +13,7 @@ pub mod c14;
 pub mod c16;
 pub mod c17;
 pub mod c18;
+pub mod c19;
 pub mod miri;
 
 use crate::report::{Report, Tier};
@@ -205,6 +206,14 @@ pub fn plan(id: &str) -> Option<Plan> {
             assumptions: BASE_ASSUMPTIONS.to_vec(),
             floor: 50,
             engines: vec![Engine { name: "sim", salt: 1, quick: 600, thorough: 20_000, serial: false, run: Box::new(|s, t| c18::scenario(s, t)) }],
+            extra: None,
+        },
+        "C19" => Plan {
+            id: "C19",
+            rule: "scenario = chaos configuration (seed; error and latency rates from {0, 0.01, 0.2, 0.5, 0.99, 1}; latency bounds in whole ms incl. min = max, min > max, 0; both builder orders; with/without error function) instantiated twice through separate layer() calls and fed the same 50-300 sequential requests; per request the decision (error injected / latency in virtual ms / pass) of both services is compared, injected errors must skip the inner call, extremes and bounds are checked; non-trivial iff both an injection and a pass occurred; distinct = (decision sequence, seed) signature",
+            assumptions: BASE_ASSUMPTIONS.to_vec(),
+            floor: 50,
+            engines: vec![Engine { name: "sim", salt: 1, quick: 1500, thorough: 60_000, serial: false, run: Box::new(|s, t| c19::scenario(s, t)) }],
             extra: None,
         },
         _ => return None,
